@@ -62,7 +62,12 @@ fn gen_labels(src: &mut Src, reserved: &str) -> Vec<(String, String)> {
     let mut out: Vec<(String, String)> = names.into_iter().map(|n| (n.to_string(), gen_text(src))).collect();
     if n == 5 && src.chance(60) {
         // the library imposes no limit on the number of labels: occasionally many more
-        for k in 0..src.below(40) {
+        let mut extra = src.below(40);
+        if extra >= 32 {
+            // ... now and then beyond 64 and 128 (bit masks and small arrays indexed by label position end there)
+            extra += 30 + src.below(110);
+        }
+        for k in 0..extra {
             out.push((format!("w{}", k), gen_text(src)));
         }
     }
